@@ -381,7 +381,7 @@ impl<T: fmt::Debug, const N: usize> fmt::Debug for FixedCircularQueue<T, N> {
         let head = self.head.load(Ordering::Acquire);
         let tail = self.tail.load(Ordering::Acquire);
 
-        if head <= tail {
+        if head < tail || self.is_empty() {
             for i in head..tail {
                 // SAFETY: All elements between head and tail are initialized
                 list.entry(unsafe { self.buffer[i].assume_init_ref() });
@@ -1042,7 +1042,9 @@ impl<T> AutoGrowCircularQueue<T> {
         // Fast bulk destruction instead of individual pops
         if self.len > 0 {
             unsafe {
-                if self.head <= self.tail {
+                // head == tail with len > 0 is a full ring (push_bulk can fill it exactly):
+                // it consists of the two regions [head..capacity) and [0..tail)
+                if self.head < self.tail {
                     // Single contiguous region
                     for i in self.head..self.tail {
                         ptr::drop_in_place(self.buffer.add(i));
@@ -1257,7 +1259,7 @@ impl<T: fmt::Debug> fmt::Debug for AutoGrowCircularQueue<T> {
             return list.finish();
         }
 
-        if self.head <= self.tail {
+        if self.head < self.tail {
             // Single contiguous region
             for i in self.head..self.tail {
                 // SAFETY: All elements between head and tail are initialized
@@ -1287,7 +1289,7 @@ impl<T: Clone> Clone for AutoGrowCircularQueue<T> {
             return new_queue;
         }
 
-        if self.head <= self.tail {
+        if self.head < self.tail {
             // Single contiguous region - bulk clone
             for i in self.head..self.tail {
                 // SAFETY: All elements between head and tail are initialized
